@@ -623,6 +623,13 @@ fn eval_client(w: &World, order: &[Member], enc: &str) -> Res {
             "message-json-bytes-hex-keys" => bytes_hex_parts(w, order)?,
             other => return Err(format!("unknown client encoding {other}")),
         };
+        client_from_parts(w, parts)
+    }))
+}
+
+/// the client's recomputation for an explicit list of message parts
+fn client_from_parts(w: &World, parts: Vec<SignerWithStakeMessagePart>) -> Res {
+    caught(catch(|| -> Res {
         let doc = json!({
             "epoch": 7,
             "signers": parts,
@@ -1145,6 +1152,143 @@ fn arrival_histories(w: &World, set: &[Member], full_plan: bool) -> Report {
 }
 
 // ---------------------------------------------------------------------------------------------
+// label exchanges: the party id and the stake written in an entry belong to the key of that entry
+
+const LABEL_KINDS: [&str; 3] = ["party-id-and-stake", "stake-only", "party-id-only"];
+const LABELS_KEY: &str = "C06/signer-list-labels-not-bound-to-keys";
+
+/// signer / aggregator / client routes for an explicit signer list (keys only, no slots)
+fn eval_list(w: &World, list: &[SignerWithStake]) -> [(&'static str, Res); 3] {
+    let sb = catch(|| -> Result<(Res, Res), String> {
+        let sb = SignerBuilder::new(list, &w.pp).map_err(es("SignerBuilder::new"))?;
+        let signer = out_of(sb.compute_aggregate_verification_key().to_concatenation_aggregate_verification_key(), None);
+        let ms = sb.build_multi_signer();
+        let aggregator = out_of(ms.compute_aggregate_verification_key().to_concatenation_aggregate_verification_key(), None);
+        Ok((signer, aggregator))
+    });
+    let (signer, aggregator) = match sb {
+        Ok(Ok(x)) => x,
+        Ok(Err(e)) => (Err(e.clone()), Err(e)),
+        Err(p) => (Err(format!("panic: {p}")), Err(format!("panic: {p}"))),
+    };
+    let client = client_from_parts(w, SignerWithStakeMessagePart::from_signers(list.to_vec()));
+    [("signer", signer), ("aggregator", aggregator), ("client", client)]
+}
+
+/// One list against the plain mithril-stm registration of the (key, stake) pairs it states: every route must refuse
+/// the list or give the key of those pairs.
+fn check_list(w: &World, rep: &mut Report, parties: &[usize], list: &[SignerWithStake], genuine: Option<&Res>, what: &str, replay: Value) {
+    let pairs: Vec<Member> = parties.iter().zip(list.iter()).map(|(p, s)| (*p, s.stake)).collect();
+    let mut sorted = pairs.clone();
+    sorted.sort();
+    let reference = eval_stm(w, &sorted, "mem", false);
+    for (route, res) in eval_list(w, list) {
+        rep.eval();
+        let Ok(o) = res else {
+            rep.outcome("stated-list:refused");
+            continue;
+        };
+        let same = |r: &Res| matches!(r, Ok(r) if r.avk == o.avk && r.json_hex == o.json_hex && r.total == o.total);
+        if same(&reference) {
+            rep.outcome("stated-list:key-of-its-pairs");
+            rep.nontrivial(&("L", route, &pairs, what));
+        } else {
+            rep.outcome("stated-list:key-of-other-pairs");
+            let genuine_too = genuine.map(|g| same(g) && !same(&reference)).unwrap_or(false);
+            rep.violation(
+                LABELS_KEY,
+                format!(
+                    "{what}: the list states the (party, stake) pairs {} but route {route} accepts it and yields the aggregate key {} (total stake {}){}; mithril-stm registering exactly those pairs yields {}",
+                    set_json(&pairs),
+                    hex::encode(&o.avk),
+                    o.total,
+                    if genuine_too { " - the key of the genuine list, whose set of pairs is different" } else { "" },
+                    match &reference {
+                        Ok(r) => format!("{} (total stake {})", hex::encode(&r.avk), r.total),
+                        Err(e) => format!("an error: {e}"),
+                    }
+                ),
+                replay.clone(),
+            );
+        }
+    }
+}
+
+/// For a genuine certified list: every way of exchanging, between two entries, the party id and the stake, the stake
+/// only, or the party id only (keys, operational certificates and KES signatures stay where they are).
+fn label_exchanges(w: &World, set: &[Member]) -> Report {
+    let mut rep = Report::new("exploration", "");
+    let n = set.len();
+    if n < 2 {
+        return rep;
+    }
+    let genuine: Vec<SignerWithStake> = set.iter().map(|m| w.signer_with_stake(*m)).collect();
+    let parties: Vec<usize> = set.iter().map(|m| m.0).collect();
+    let genuine_ref = eval_stm(w, set, "mem", false);
+    let pairs: Vec<(usize, usize)> = if n <= 3 {
+        (0..n).flat_map(|a| (a + 1..n).map(move |b| (a, b))).collect()
+    } else {
+        vec![(0, 1), (0, n - 1), (n - 2, n - 1)]
+    };
+    for (a, b) in pairs {
+        for kind in LABEL_KINDS {
+            let mut list = genuine.clone();
+            if kind != "stake-only" {
+                let t = list[a].party_id.clone();
+                list[a].party_id = list[b].party_id.clone();
+                list[b].party_id = t;
+            }
+            if kind != "party-id-only" {
+                let t = list[a].stake;
+                list[a].stake = list[b].stake;
+                list[b].stake = t;
+            }
+            check_list(
+                w,
+                &mut rep,
+                &parties,
+                &list,
+                Some(&genuine_ref),
+                &format!("genuine list {} with the {kind} labels of entries {a} and {b} exchanged", set_json(set)),
+                json!({"sets": [set_json(set)], "label_exchange": {"entries": [a, b], "kind": kind}}),
+            );
+        }
+    }
+    rep
+}
+
+/// One pool that appears with two keys and two stakes in a list (its party id labels both entries), every order.
+fn same_pool_twice(w: &World, set: &[Member]) -> Report {
+    let mut rep = Report::new("exploration", "");
+    for perm in permutations(set.len()) {
+        let order = order_of(set, &perm);
+        let list: Vec<SignerWithStake> = order.iter().map(|m| w.signer_with_stake(*m)).collect();
+        let parties: Vec<usize> = order.iter().map(|m| m.0).collect();
+        check_list(
+            w,
+            &mut rep,
+            &parties,
+            &list,
+            None,
+            &format!("list {:?} in which one pool certifies two keys", order),
+            json!({"sets": [set_json(set)], "same_pool_twice": {"order": perm}}),
+        );
+    }
+    rep
+}
+
+fn shares_a_pool(w: &World, set: &[Member]) -> bool {
+    let mut ids: Vec<usize> = set.iter().map(|m| w.parties[m.0].identity).collect();
+    ids.sort();
+    ids.windows(2).any(|x| x[0] == x[1])
+}
+
+/// parties 0 and 5 (and 1 and 6) are certified by the same pool
+fn same_pool_sets() -> Vec<Vec<Member>> {
+    vec![vec![(0, 1), (5, 2)], vec![(0, 2), (5, 1)], vec![(1, 10), (6, 1)], vec![(0, 1), (2, 10), (5, 2)]]
+}
+
+// ---------------------------------------------------------------------------------------------
 // the enumerated families
 
 /// all distinct arrangements of `n` elements drawn from the multiset `pool`
@@ -1375,7 +1519,10 @@ pub fn run(ctx: &Ctx) -> ! {
          of the quick family: to every registered member, and pairs of refused submissions), on mithril-stm's KeyRegistration \
          and on mithril-common's KeyRegWrapper; once every one \
          was refused, the closed registration, total stake, key and every member's slot must equal those of the same order \
-         without them. A case (set, order, route, encoding) is \
+         without them. Label exchanges: for every set of the family, the genuine certified signer list with the party id and \
+         stake, the stake only, or the party id only of two entries exchanged (keys, certificates, KES signatures in place), and \
+         lists in which one pool certifies two keys, on the signer / aggregator / client routes: the list is refused or the key \
+         equals what mithril-stm gives for exactly the (key, stake) pairs the list states. A case (set, order, route, encoding) is \
          non-trivial when the registration closed, a key came out and - on the signing routes - every member obtained a \
          signature carrying its slot; distinct = distinct (set, order, route, encoding)",
     );
@@ -1424,6 +1571,7 @@ pub fn run(ctx: &Ctx) -> ! {
     rep.assume("phi_f = 1 so that every member wins a lottery and its slot can be read from a real signature; the key does not depend on the protocol parameters in this build (no future_snark)");
     rep.assume("the client route yields a key only (a client has no slots); slots are compared between the stm and signer routes, and the aggregator's view of a slot through MultiSigner::verify_single_signature of signatures made under another registration order");
     rep.assume("total stake is taken to mean the sum of the registered stakes");
+    rep.assume("label exchanges: the (key, stake) pairs a signer list states are, per entry, the key and the stake field of that entry; the reference for them is mithril-stm's KeyRegistration fed with exactly those pairs (the stm route, itself compared with all others on genuine lists)");
     rep.assume("arrival histories: a submission counts as refused when register returns an error; one that is accepted on the tree under test makes another registered set and is only counted (refusable-submission:accepted). The SignerBuilder routes abort at the first refusal and cannot reach a closed registration after one; mithril-stm's KeyRegistration and mithril-common's KeyRegWrapper can");
     rep.assume("keys come from a constant-seeded ChaCha20 RNG; KES material from the repository's certified test fixture");
 
@@ -1435,11 +1583,15 @@ pub fn run(ctx: &Ctx) -> ! {
             rep.finish(ctx);
         }
         for s in &sets {
-            if s.len() <= 4 {
+            if shares_a_pool(&w, s) {
+                rep.merge(same_pool_twice(&w, s));
+            } else if s.len() <= 4 {
                 rep.merge(check_set(&w, s, true));
                 rep.merge(arrival_histories(&w, s, true));
+                rep.merge(label_exchanges(&w, s));
             }
         }
+        let sets: Vec<Vec<Member>> = sets.into_iter().filter(|s| !shares_a_pool(&w, s)).collect();
         level_a(&w, &sets, threads, &mut rep);
         rep.nontrivial(&0);
         rep.nontrivial(&1);
@@ -1462,6 +1614,14 @@ pub fn run(ctx: &Ctx) -> ! {
         rep.merge(p);
     }
     eprintln!("[C06] arrival histories ({} sets) done at {:.1}s", b_sets.len(), ctx.elapsed_s());
+    let parts = par_map(&schedule, threads, |_, s| label_exchanges(&w, s));
+    for p in parts.into_iter().rev() {
+        rep.merge(p);
+    }
+    for s in same_pool_sets() {
+        rep.merge(same_pool_twice(&w, &s));
+    }
+    eprintln!("[C06] label exchanges done at {:.1}s", ctx.elapsed_s());
     let a_sets = level_a_sets(thorough);
     level_a(&w, &a_sets, threads, &mut rep);
     eprintln!("[C06] level A ({} sets) done at {:.1}s", a_sets.len(), ctx.elapsed_s());
